@@ -235,6 +235,9 @@ def num_case(case):
                 if not (p >= 0.0) or math.isinf(p):
                     fnd.append(["probability-negative", f"probability({k}) = {p!r}"])
                     break
+                if p > 1.0 + 1e-12:
+                    fnd.append(["probability-above-one", f"probability({k}) = {p!r}"])
+                    break
                 total += p
                 k += 1
                 if hi is not None:
@@ -324,13 +327,19 @@ def cdf_checks(obj, case, fnd):
             fnd.append(["cdf-inconsistent-with-density", f"cdf({x2!r}) - cdf({x1!r}) = {v2 - v1!r} but the density integrates to {inc!r} there"])
             return
     # inverse: round trips and monotonicity, to the documented accuracy of erf_inv (4.5e-8 relative on x)
-    ys = [1e-9, 1e-6, 1e-3, 0.01, 0.1, 0.125, 0.2, 0.3, 0.4, 0.5, 0.6, 0.7, 0.8, 0.875, 0.9, 0.96875, 0.99, 0.999, 1 - 1e-6]
-    # erf_inv has a documented relative error of 4.5e-8 on x; for a truncated normal the resulting error in the
-    # probability is divided by the mass of the interval
-    amp = 1.0
+    # ... over the whole unit interval, the far tails included (probabilities within 1e-9 .. 1e-16 of 0 and 1).
+    # erf_inv gives up beyond |2y - 1| > 1 - 1e-9 and returns +-inf there: an infinite result (0.0 / inf for the
+    # log-normal) is accepted for y below 1e-9 or above 1 - 1e-9; a finite one must map back to y.
+    ys = [1e-16, 1e-15, 1e-13, 1e-10, 6e-10, 1e-9, 3e-9, 1e-6, 1e-3, 0.01, 0.1, 0.125, 0.2, 0.3, 0.4, 0.5, 0.6, 0.7, 0.8, 0.875,
+          0.9, 0.96875, 0.99, 0.999, 1 - 1e-6, 1 - 3e-9, 1 - 1e-9, 1 - 6e-10, 1 - 1e-10, 1 - 1e-13, 1 - 2.0 ** -53]
+    # erf_inv: documented relative error 4.5e-8 on x; for a truncated normal the resulting error in the probability
+    # is divided by the mass of the interval
+    amp, plo, mass = 1.0, 0.0, 1.0
     if c == "DistNormalTrunc":
+        plo = 0.5 + 0.5 * math.erf((ps[2] - mu) / (math.sqrt(2.0) * sigma))
         mass = 0.5 * (math.erf((ps[3] - mu) / (math.sqrt(2.0) * sigma)) - math.erf((ps[2] - mu) / (math.sqrt(2.0) * sigma)))
         amp = max(1.0, 1.0 / max(mass, 1e-6))
+    abs_tol = 2e-7 * amp if c == "DistNormalTrunc" else 1e-12
     prev = None
     for y in ys:
         try:
@@ -338,15 +347,25 @@ def cdf_checks(obj, case, fnd):
         except Exception as exc:  # noqa
             fnd.append(["inverse-cdf-raises", f"inverse_cumulative_probability({y!r}) raised {type(exc).__name__}: {exc}"])
             return
-        try:
-            y2 = F(x)
-        except Exception as exc:  # noqa
-            fnd.append(["cdf-raises", f"cumulative_probability({x!r}) raised {type(exc).__name__}"])
+        if x != x:
+            fnd.append(["inverse-cdf-not-a-number", f"inverse_cumulative_probability({y!r}) = nan"])
             return
-        if abs(y2 - y) > 5e-6 * min(y, 1 - y) + 2e-7 * amp:      # erf_inv: documented relative error 4.5e-8 on x
-            fnd.append(["cdf-inverse-cdf-not-inverse", f"cumulative_probability(inverse_cumulative_probability({y!r})) = {y2!r}"])
+        gave_up = math.isinf(x) or (c == "DistLogNormal" and x == 0.0)
+        a = plo + y * mass            # the probability erf_inv is asked for (of the normal that is not truncated)
+        if gave_up and 1e-9 <= a <= 1 - 1e-9:
+            fnd.append(["cdf-inverse-cdf-not-inverse", f"inverse_cumulative_probability({y!r}) = {x!r}"])
             return
-        if prev is not None and x < prev[1] - 1e-7 * (1.0 + abs(prev[1])):
+        if not gave_up:
+            try:
+                y2 = F(x)
+            except Exception as exc:  # noqa
+                fnd.append(["cdf-raises", f"cumulative_probability({x!r}) raised {type(exc).__name__}"])
+                return
+            if abs(y2 - y) > 5e-6 * min(y, 1 - y) + abs_tol:
+                fnd.append(["cdf-inverse-cdf-not-inverse",
+                            f"cumulative_probability(inverse_cumulative_probability({y!r})) = {y2!r} (inverse = {x!r})"])
+                return
+        if prev is not None and x < prev[1] and not x >= prev[1] - 1e-7 * (1.0 + abs(prev[1])):
             fnd.append(["inverse-cdf-not-monotone", f"inverse_cumulative_probability({prev[0]!r}) = {prev[1]!r} > inverse_cumulative_probability({y!r}) = {x!r}"])
             return
         prev = (y, x)
